@@ -109,8 +109,9 @@ def finish(meta, src, sid):
     out = os.path.join(VERIF, "seeded", sid)
     os.makedirs(out, exist_ok=True)
     for f in ("patch.diff", "demo.py", "notes.md"):
-        if os.path.exists(os.path.join(src, f)):
-            shutil.copy(os.path.join(src, f), os.path.join(out, f))
+        a, b = os.path.join(src, f), os.path.join(out, f)
+        if os.path.exists(a) and os.path.abspath(a) != os.path.abspath(b):
+            shutil.copy(a, b)
     notes = os.path.join(src, "notes.md")
     if os.path.exists(notes):
         meta["needs_to_manifest"] = open(notes).read()[:1500]
